@@ -1,6 +1,6 @@
 """property -> rule sets (DESIGN §4)"""
 from engine import ok, bad, assumed, floor
-import r_lock, r_panic, r_errd, r_order, r_misc, r_nowrap, r_desc, r_registry, r_effects, r_value
+import r_lock, r_panic, r_errd, r_order, r_misc, r_nowrap, r_desc, r_registry, r_effects, r_value, r_ctx
 
 PROPS = {}
 
@@ -249,3 +249,21 @@ def c03(ctx):
     obs += r_value.rule_htyped(prog, hs)
     obs.append(floor('HTYPED', 'builtin-handlers', len(hs), 20, 'documented built-in operators and functions'))
     return obs, {'analysed': {'builtin_handlers': len(hs)}}
+
+
+@prop('C06',
+      'WCTX, per evaluator body that writes the context: exactly one write, control-dependent on the SETTER edge of the switch on the operator type, dominated by the evaluation of both operands and by the handler call, '
+      'value = the ?-unwrapped result of that handler call applied to (left value, right value) (so a failing handler leaves the binding untouched), name = the ?-unwrapped Reference name of the LEFT operand (every other target is Err), '
+      'followed only by Ok(Value::None), on every Ok path of the SETTER branch, not in a loop; no other evaluator body writes the context. '
+      'CTXSTORE: the context writer chain stores (name, value) unchanged; Context::value returns Ok(None) for an absent name and the stored value for a variable; Reference nodes read under their own name. '
+      'CHAIN: a program\'s value is the loop-carried result initialised to None. ORDER-O4 (C07) gives "nothing assigned after a failure".',
+      not_decided='the contents of the context after arbitrary statement sequences (follows from the per-node clauses by induction, not machine-checked); x op= e == x op e is decided only up to TOP (thorough)',
+      assumptions=COMMON_ASSUME)
+def c06(ctx):
+    prog = ctx.prog
+    em = eval_model(ctx)
+    obs = r_ctx.rule_wctx(prog, em)
+    obs += r_ctx.rule_ctx_store(prog, em)
+    obs += r_ctx.rule_chain(prog, em)
+    obs += r_order.rule_o4(em, ('child', 'handler'))
+    return obs, {'analysed': {'evaluator_bodies': len(em.bodies)}}
